@@ -174,4 +174,22 @@ theorem eval_nodeset_sorted_nodup {N : Type} [XNum N] (env : Env) (e : Expr) (cx
     (h : eval (N := N) env e cx = .ok (.ns l)) : l.Pairwise (· < ·) :=
   eval_wf env e cx (.ns l) h
 
+/-- The "exactly the selected nodes" clause on the specification side, for a location step (XPath 1.0 semantics, no predicates):
+the result consists of precisely the document's nodes that lie on the axis of some context node and pass the node test. -/
+theorem eval_step_exact {N : Type} [XNum N] (env : Env) (hq : env.q.predMerged = false) (ax : Axis) (t : Test) (s : List Ref) :
+    ∃ r, evalSteps (N := N) env [.mk ax t []] s = .ok r ∧ r.Pairwise (· < ·) ∧
+      ∀ x, x ∈ r ↔ x ∈ env.all ∧ ∃ c ∈ s, env.inAxis ax c x = true ∧ env.matchTest ax t x = true :=
+  step_exact env hq ax t s
+
+/-- …and for `|`: precisely the nodes of either operand. -/
+theorem eval_union_exact {N : Type} [XNum N] (env : Env) (a b : Expr) (cx : Cx) (l1 l2 : List Ref)
+    (ha : eval (N := N) env a cx = .ok (.ns l1)) (hb : eval (N := N) env b cx = .ok (.ns l2)) :
+    ∃ r, eval (N := N) env (.bin .union a b) cx = .ok (.ns r) ∧ r.Pairwise (· < ·) ∧
+      ∀ x, x ∈ r ↔ x ∈ env.all ∧ (x ∈ l1 ∨ x ∈ l2) :=
+  union_exact env a b cx l1 l2 ha hb
+
+/-- a three-element document `<a><b>v</b><c/></a>`: `child::*` from `a` selects `b` and `c`, not the text node -/
+example : (⟨⟨#[⟨0, [], [0x61], false, [], []⟩, ⟨1, [], [0x62], true, [0x76], []⟩, ⟨1, [], [0x63], false, [], []⟩]⟩, {}, 0⟩ : Env).candidates
+    .child .any 2 = [4, 6] := by decide
+
 end LyModel.Props.C08
